@@ -302,6 +302,56 @@ func c10Worker(args []string) {
 			rep.Calls++
 		}
 	}
+	// records holding instants in named time zones, with TZ unset, empty and set: the
+	// environment of the process is read, never written (whatever zone the data are in)
+	marker("CALL/instants-in-named-zones/0")
+	{
+		type stamped struct {
+			When  time.Time
+			Label string
+			Whens []time.Time
+		}
+		saved, had := os.LookupEnv("TZ")
+		for zi, zone := range []string{"Europe/Helsinki", "America/New_York", "Asia/Kolkata", "Australia/Lord_Howe", "UTC"} {
+			loc, err := time.LoadLocation(zone)
+			if err != nil {
+				continue
+			}
+			at := time.Date(2021, 3, 4, 5, 6, 7, 0, loc)
+			for ti, tz := range []string{"", "unset", "Pacific/Auckland"} {
+				if tz == "unset" {
+					os.Unsetenv("TZ")
+				} else {
+					os.Setenv("TZ", tz)
+				}
+				for si, script := range []string{`return [When, hour(When), weekday(When), Label];`, `n = 0; foreach w in Whens { n = n + minute(w); } return [n, year(When), month(When), day(When), seconds(When)];`, `return Label;`} {
+					for oi, obj := range []interface{}{stamped{When: at, Label: "l", Whens: []time.Time{at, at.Add(time.Hour)}}, &stamped{When: at, Label: "l"}, map[string]interface{}{"When": at, "Label": "l", "Whens": []interface{}{at}}} {
+						evr, err := eng.New(script, eng.Options{Budget: 100000, NoOptimize: (zi+ti+si+oi)%2 == 0})
+						if err != nil {
+							continue
+						}
+						envBefore := strings.Join(os.Environ(), "\x00")
+						evr.Exec(obj)
+						evr.RunBool(obj)
+						if envAfter := strings.Join(os.Environ(), "\x00"); envAfter != envBefore && len(rep.ErrorsSample) < 20 {
+							rep.ErrorsSample = append(rep.ErrorsSample, "LEAK: the environment of the process changed during "+script+" over a record with an instant in "+zone+": "+envDiff(envBefore, envAfter))
+							if tz == "unset" {
+								os.Unsetenv("TZ")
+							} else {
+								os.Setenv("TZ", tz)
+							}
+						}
+						rep.Calls++
+					}
+				}
+			}
+		}
+		if had {
+			os.Setenv("TZ", saved)
+		} else {
+			os.Unsetenv("TZ")
+		}
+	}
 	// objects whose type has methods that reach the outside world: a script can name them
 	// (they are no fields: the names read as null), nothing the host did not register runs
 	marker("CALL/objects-with-methods/0")
